@@ -28,15 +28,22 @@ def generate(rnd, tier):
 
 def monitor(case, obs):
     x = X(case, obs)
-    prev = None; pending_api = None; failed_setup = False; counts = {}
+    prev = None; pending_api = None; failed_setup = False; counts = {}; discard_ok = 0
     for i, ev, ctx in x.events():
         if ctx.get("reader") or "stack" not in ctx: continue
         st = ctx["stack"]
+        # a setup that has just reported failure: the scheduler discards the top entry right after it (seen at the next observation)
+        if ev[0] == "cb<" and ev[2] == "setup" and len(ev) > 3 and ev[3] is False: discard_ok = 2
+        elif discard_ok: discard_ok -= 1
         if prev is not None and st != prev:
             def one_op(a, b): return b == a or (b[:-1] == a) or (b == a[:-1]) or (len(b) == len(a) and b[:-1] == a[:-1]) or (b[1:] == a)
             # a failed setup discards the top entry without any observable event of its own
             ok = one_op(prev, st) or (failed_setup and prev and one_op(prev[:-1], st))
             if not ok: return "between two observations the stack went from %r to %r: not one stack operation" % (prev, st)
+            # closing removes the top - and nothing else does: a top entry that disappears is seen first at its own closed() callback (or was discarded by a
+            # failed setup, which has no event of its own); a refused close request, in particular, leaves the stack as it is
+            if st == prev[:-1] and not failed_setup and not discard_ok and not (ev[0] == "cb" and ev[2] == "closed" and x.specs[ev[1]]["name"] == prev[-1][0]):
+                return "the top entry %r left the stack (now %r) without its closed() callback and without a failed setup; first seen at %r" % (prev[-1], st, ev[:3])
             if len(st) == len(prev) and st[:-1] == prev[:-1] and st[-1][2] != prev[-1][2]:
                 return "replace changed the modality of the top entry: %r -> %r" % (prev[-1], st[-1])
         if ev[0] == "cb":
@@ -100,5 +107,5 @@ def nontrivial(case, obs):
     return n >= 3
 
 
-LEAN_MODULES = ["C04"]  # TODO C04b
+LEAN_MODULES = ["C04", "C04b"]
 objects.install(globals(), ("sstack",))
